@@ -143,6 +143,26 @@ def random_cases(family, rng, count):
                     out.append({"fn": "repeat", "x0": X, "y0": Y, "x": [R(v) for v in hx], "y": [R(v) for v in hy], "r": rng.choice([1, 2, 3, 4]),
                                 "pre": [{"k": "interpolate_n", "n": n, "method": "linear"}]})
             if rng.random() < 0.3:
+                # Weaver(None, y): abscissae generated from the sample positions, then moved by operations that leave no trace
+                # in the object (shift, cut by index, both) before the repeat (seed C12j); every second one repeats at once
+                m = rng.randint(2, 9)
+                py = [Fraction(rng.randint(-20, 20), 4) for _ in range(m)]
+                px = [Fraction(i) for i in range(m)]
+                sh, st = Fraction(rng.choice([3, -10, 1, 7, -2]), rng.choice([1, 1, 2])), rng.randint(1, max(1, m - 2))
+                pre, qx, qy = [], px, py
+                for kind_ in rng.choice([["shift_x"], ["truncate_index"], ["scale_x", "shift_x"], ["shift_x", "truncate_index"], []]):
+                    if kind_ == "shift_x":
+                        pre.append({"k": "shift_x", "v": R(sh)})
+                        qx = [v + sh for v in qx]
+                    elif kind_ == "scale_x":
+                        pre.append({"k": "scale_x", "v": R(Fraction(2))})
+                        qx = [v * 2 for v in qx]
+                    elif len(qx) - st >= 2:
+                        pre.append({"k": "truncate_index", "start": st, "stop": len(qx)})
+                        qx, qy = qx[st:], qy[st:]
+                out.append({"fn": "repeat", "x0": [R(v) for v in px], "y0": [R(v) for v in py], "x": [R(v) for v in qx], "y": [R(v) for v in qy],
+                            "r": rng.choice([1, 2, 3, 5, 12]), "pre": pre, "xnone": True})
+            if rng.random() < 0.3:
                 # decimal abscissae (tenths, twentieths, hundredths): the period is not representable in binary
                 den = rng.choice([10, 20, 100, 5])
                 t, dx = Fraction(rng.randint(-30, 30), den), []
